@@ -1090,7 +1090,7 @@ func (e *c19Env) hostileTxs(v *sim.View, height uint64) []*wire.MsgTx {
 	r := e.g.r
 	owned := wd.AllOwned()
 	var mineOuts, otherOuts []*sim.Out
-	for _, o := range v.Outs {
+	for _, o := range v.SortedOuts() {
 		if o.Spent || !o.HasHash || o.Value < 100000 || !v.Mature(o) || o.Class != sim.ClassStd {
 			continue
 		}
